@@ -1057,6 +1057,19 @@ fn gen_c19(seed: u64, _index: u64, tier: Tier) -> ServerPlan {
                     present.push((p.clone(), a.clone()));
                     OperatorAction::Write { path: p, content: c19_zone_content(&a, version, true) }
                 }
+                8 if r.chance(0.35) && present.iter().any(|(p, _)| p.starts_with("zones/")) => {
+                    // the zones directory is emptied (every file in it removed at
+                    // once): a valid configuration - those zones are gone
+                    let gone: Vec<(String, String)> = present.iter().filter(|(p, _)| p.starts_with("zones/")).cloned().collect();
+                    present.retain(|(p, _)| !p.starts_with("zones/"));
+                    let (last, rest) = gone.split_last().expect("non-empty");
+                    for (p, a) in rest {
+                        removed.push((p.clone(), a.clone()));
+                        operator.push(OperatorStep { at_ms: t0, action: OperatorAction::Remove { path: p.clone() } });
+                    }
+                    removed.push(last.clone());
+                    OperatorAction::Remove { path: last.0.clone() }
+                }
                 8 => OperatorAction::Write {
                     path: format!("hosts/{:02}-hosts", r.range(10, 30)),
                     content: if r.chance(0.8) {
@@ -1289,6 +1302,18 @@ fn oracle_c19(plan: &ServerPlan, obs: &ServerObs, seed: u64) -> RunResult {
         if must_fail {
             bump(&mut res.stats, "probe.reload_met_unreadable_or_invalid_file");
             expected = None;
+        } else if expected.is_none() && !events.is_empty() {
+            // ... and the other way round: every directory could be listed, every
+            // file read, and every file parses - then there IS a configuration
+            // (an emptied directory is a valid one), whatever the loader says
+            res.violations.push(Violation::new("c19.valid_configuration_refused").detail(json!({
+                "signal_at": at,
+                "events": events.iter().map(|e| match e {
+                    FsEvent::List { dir, outcome } => format!("list {} {}", dir.file_name().map_or_else(String::new, |f| f.to_string_lossy().to_string()), match outcome { simseam::fs::FsOutcome::Ok(v) => format!("{} entries", v.len()), simseam::fs::FsOutcome::Err(k) => format!("{k:?}") }),
+                    FsEvent::Read { path, outcome } => format!("read {} {}", path.file_name().map_or_else(String::new, |f| f.to_string_lossy().to_string()), match outcome { simseam::fs::FsOutcome::Ok(t) => format!("{} bytes", t.len()), simseam::fs::FsOutcome::Err(k) => format!("{k:?}") }),
+                    FsEvent::Mark { .. } => String::new(),
+                }).collect::<Vec<_>>(),
+            })));
         }
         let prev = versions.last().unwrap().clone();
         match expected {
